@@ -128,9 +128,10 @@ EncQuestion(q, pos, tab) ==
 \* the records a record set stands for, in order
 ExpRRs(rs, sec) ==
     IF rs.rds = <<>> THEN <<[sec |-> sec, name |-> rs.name, type |-> rs.type, cls |-> rs.cls,
-                             ttl |-> <<0, 0>>, items |-> <<>>]>>
+                             ttl |-> <<0, 0>>, items |-> <<>>, empty |-> TRUE]>>
     ELSE [i \in 1..Len(rs.rds) |-> [sec |-> sec, name |-> rs.name, type |-> rs.type, cls |-> rs.cls,
-                                    ttl |-> rs.ttl, items |-> rs.rds[i]]]
+                                    ttl |-> rs.ttl, items |-> rs.rds[i], empty |-> FALSE]]
+\* (empty: the record stands for an EMPTY record set; a record whose RDATA has length 0 is a different thing)
 RECURSIVE ExpSection(_, _)
 ExpSection(rss, sec) == IF rss = <<>> THEN <<>> ELSE ExpRRs(rss[1], sec) \o ExpSection(Tail(rss), sec)
 
@@ -231,6 +232,7 @@ WireIs(w, id, flags, qs, xs) ==
    compressed / registered (RFC 3597 s4 allows it only for the RFC 1035 types). *)
 KindType(kind) == CASE kind = "A" -> TyA [] kind = "NS" -> TyNS [] kind = "SOA" -> TySOA
                     [] kind = "TXT" -> TyTXT [] kind = "SRV" -> TySRV [] kind = "RRSIG" -> TyRRSIG
+                    [] kind = "SIG" -> 24 [] kind = "NULL" -> 10
                     [] OTHER -> TyPriv
 RfcCmp == [NS |-> <<TRUE, TRUE>>, SOA |-> <<TRUE, TRUE>>, SRV |-> <<FALSE, FALSE>>, RRSIG |-> <<FALSE, FALSE>>]
 NameItem(n, f) == <<"n", n, f[1], f[2]>>
@@ -242,7 +244,8 @@ RdataItems(kind, n1, n2, k, cmp) ==
       [] kind = "SOA" -> <<NameItem(n1, cmp.SOA), NameItem(n2, cmp.SOA),
                            <<"b", U32(k) \o U32(3600) \o U32(600) \o U32(86400) \o U32(300)>>>>
       [] kind = "SRV" -> <<<<"b", U16(k) \o U16(5) \o U16(53)>>, NameItem(n1, cmp.SRV)>>
-      [] kind = "RRSIG" -> <<<<"b", U16(TyA) \o <<8, 2>> \o U32(300) \o U32(1893456000) \o U32(1577836800)
+      [] kind = "NULL" -> IF k = 0 THEN <<>> ELSE <<<<"z", k, 170>>>>       \* RFC 1035 3.3.10: anything, also nothing
+      [] kind \in {"RRSIG", "SIG"} -> <<<<"b", U16(IF k % 2 = 1 THEN TyA ELSE TyNS) \o <<8, 2>> \o U32(300) \o U32(1893456000) \o U32(1577836800)
                                     \o U16(1000 + k)>>, NameItem(n1, cmp.RRSIG), <<"b", <<0, 0, k>>>>>>
       [] kind = "TXT" -> <<<<"b", <<k % 1000>>>>, <<"z", k % 1000, 120 + (k \div 1000)>>>>
       [] OTHER -> <<<<"z", k, 170>>>>
